@@ -116,8 +116,14 @@ def register_c14(reg):
     reg.add(Contract(f'{CP}:parse_color_to_rgb', params={'color': lambda S, p, ex: container(S, p, ex, 'color', (0, 1, 2, 3, 4, 5)), 'background': lambda S, p, ex: opt_rgb8_bg(S, p, ex)},
                      pre=None, result='rgb', pure=True, raises=('ValueError',), posts={'rgb8_ints': rgb8_ints, 'int3_identity': identity},
                      exc_posts={'ValueError': no_raise_for_int3}, props=PROPS))
+    def tuple_tags(S, a, r):
+        c = a.color
+        items = c.xs if isinstance(c, VTuple) else (a._path.cell(c.oid).get('items') if isinstance(c, VRef) and c.cls == 'list' else None)
+        if items is None or not isinstance(r, VStr): return S.true
+        want = {3: 'rgb_tuple', 4: 'rgba_tuple'}.get(len(items), 'unknown')
+        return S.str_eq(r, S.lit(want))
     reg.add(Contract(f'{CP}:detect_color_format', params={'color': lambda S, p, ex: container(S, p, ex, 'color', (0, 1, 2, 3, 4, 5))}, pre=None, result='str', pure=True, raises=(),
-                     posts={'is_str': lambda S, a, r: S.true if isinstance(r, VStr) else S.false}, props={'is_str': ['C14', 'C06']}))
+                     posts={'is_str': lambda S, a, r: S.true if isinstance(r, VStr) else S.false, 'tuple_tags': tuple_tags}, props={'is_str': ['C14', 'C06'], 'tuple_tags': ['C06']}))
 
     # ---- Color / ColorPair constructors
     COLOR_FIELDS = {'original': 'unk', 'background_context': 'unk', '_rgb': ('opt', 'rgb'), '_error': 'unk', '_parsed': 'bool', '_format': 'str'}
